@@ -165,7 +165,9 @@ impl super::Authorizer {
 
             for fact in &facts {
                 let fact = proto_fact_to_token_fact(fact)?;
-                //let fact = Fact::convert_from(&fact, &symbols)?.convert(&mut authorizer.symbols);
+                // every symbol used by a restored fact must be in the snapshot's table
+                // (dump() and queries convert the facts back and would panic otherwise)
+                crate::builder::Fact::convert_from(&fact, &authorizer.symbols)?;
                 authorizer.world.facts.insert(&origin, fact);
             }
         }
